@@ -242,6 +242,17 @@ impl SourceUnit {
         warnings
     }
 
+    /// The unit's terms in allocation order.
+    ///
+    /// The arena is hash-ordered by identifiers whose key space depends on what
+    /// the process parsed before, so a decoder that reports the *first* failure
+    /// must not walk it directly.
+    fn ordered_terms(arena: &TextArena) -> Vec<(&TermId, &Term)> {
+        let mut terms = arena.terms.iter().collect::<Vec<_>>();
+        terms.sort_by_key(|(term, _)| **term);
+        terms
+    }
+
     /// Decode and validate all `@[literal]` term splices in this source unit.
     ///
     /// A literal splice requires a hole payload and an attached `--|` text
@@ -250,9 +261,8 @@ impl SourceUnit {
         &self, arena: &TextArena, spans: &SpanArena,
     ) -> Result<Vec<LiteralSite>, LiteralDirectiveError> {
         let _root = &arena.terms[&self.root];
-        let mut literals = arena
-            .terms
-            .iter()
+        let mut literals = Self::ordered_terms(arena)
+            .into_iter()
             .filter_map(|(term, syntax)| match syntax {
                 | Term::Meta(MetaT(meta, payload)) => {
                     LiteralSite::decode(*term, meta, *payload, arena, spans)
@@ -272,9 +282,8 @@ impl SourceUnit {
         &self, arena: &TextArena, spans: &SpanArena,
     ) -> Result<Vec<ImportSite>, ImportDirectiveError> {
         let _root = &arena.terms[&self.root];
-        let mut imports = arena
-            .terms
-            .iter()
+        let mut imports = Self::ordered_terms(arena)
+            .into_iter()
             .filter_map(|(term, syntax)| match syntax {
                 | Term::Meta(MetaT(meta, payload)) => {
                     ImportSite::decode(*term, meta, *payload, arena, spans)
@@ -291,9 +300,8 @@ impl SourceUnit {
         &self, arena: &TextArena, spans: &SpanArena,
     ) -> Result<Vec<BuiltinSite>, BuiltinDirectiveError> {
         let _root = &arena.terms[&self.root];
-        let term_sites = arena
-            .terms
-            .iter()
+        let term_sites = Self::ordered_terms(arena)
+            .into_iter()
             .filter_map(|(term, syntax)| match syntax {
                 | Term::Meta(MetaT(meta, payload)) => {
                     BuiltinSite::decode_term(*term, meta, *payload, spans)
@@ -301,9 +309,8 @@ impl SourceUnit {
                 | _ => None,
             })
             .collect::<Result<Vec<_>, _>>()?;
-        let parameter_sites = arena
-            .terms
-            .iter()
+        let parameter_sites = Self::ordered_terms(arena)
+            .into_iter()
             .flat_map(|(_, syntax)| match syntax {
                 | Term::Exists(Exists { parameters, .. }) => parameters
                     .iter()
@@ -326,9 +333,8 @@ impl SourceUnit {
         &self, arena: &TextArena, spans: &SpanArena,
     ) -> Result<Vec<IntrinsicSite>, IntrinsicDirectiveError> {
         let _root = &arena.terms[&self.root];
-        let mut intrinsics = arena
-            .terms
-            .iter()
+        let mut intrinsics = Self::ordered_terms(arena)
+            .into_iter()
             .filter_map(|(term, syntax)| match syntax {
                 | Term::Meta(MetaT(meta, payload)) => {
                     IntrinsicSite::decode(*term, meta, *payload, arena, spans)
